@@ -11,11 +11,13 @@ func init() {
 	register(&Prop{
 		ID:        "C21",
 		Level:     "other",
-		Technique: "clamp-discipline rule over every store to the negotiated bounds in broker.handleReq (guard facts), ordering rule (no bound is applied after the feasibility check), must-pass-through of the broker-version table store in requestAPIVersions, loop-variant rule for the KIP-511 downgrade",
+		Technique: "clamp-discipline rule over every store to the negotiated bounds in broker.handleReq (guard facts), ordering rule (no bound is applied after the feasibility check), must-pass-through of the broker-version table store in requestAPIVersions, loop-variant rule for the KIP-511 downgrade, per-iteration freshness of the request object in every per-broker shard, value-derivation of the forwarded context",
 		Explanation: "(1) in handleReq, after ourMax = req.MaxVersion() and ourMin = -1, every store ourMax = X is guarded by X < ourMax and every store ourMin = X by X > ourMin (the pinned minimum may be the first, unguarded store); each of the six bound sources (pinned max/min, broker max/min, user max/min) has its clamp; " +
 			"(2) all clamps precede the feasibility check: the version is set once, with SetVersion(ourMax), only after `ourMin > -1 && ourMin > ourMax` and `userMin > ourMax` were found false, and no store to either bound is reachable after those checks; the rejecting arms complete the request with an error and return without writing; a request whose key the user's MaxVersions lacks, or that the broker does not support, is rejected before negotiation; " +
 			"(3) requestAPIVersions stores the version table parsed from THIS connection's response on every successful return (a cached table from another connection is never kept instead), built from every advertised key's min and max; " +
-			"(4) a KIP-511 downgrade is accepted only for 0 <= v < maxVersion (strictly decreasing, so the retry loop terminates), and an UNSUPPORTED_VERSION reply to v0 fails.",
+			"(4) a KIP-511 downgrade is accepted only for 0 <= v < maxVersion (strictly decreasing, so the retry loop terminates), and an UNSUPPORTED_VERSION reply to v0 fails; " +
+			"(5) the negotiated version is stored in the request object and read back at serialisation, so every issueShard built in a per-broker loop carries a request created in that iteration (closures handed to allBrokersShardedReq return a copy made inside the closure); " +
+			"(6) pins reach handleReq as context values: wherever a kgo function forwards its request parameter together with a context, that context is the function's own context parameter or context.With*(…) of it (greatest-fixpoint derivation over all assignments), never one rebuilt from cl.ctx.",
 		NotDecided: "nothing value-level beyond comparisons (the function touches versions only through < and >); that every request type's MaxVersion() is what the codec supports is C24.",
 		Run:        runC21,
 	})
@@ -35,6 +37,8 @@ func runC21(c *Ctx) {
 		c21apiVersionsUserMax(c, m, r)
 	}
 	c21versionsStore(c, m)
+	c21perBrokerRequest(c, m)
+	c21pinContext(c, m)
 }
 
 // c21versionsStore: the table a connection's ApiVersions response advertised
